@@ -37,6 +37,9 @@ FILES = {
     # an include that climbs out of its folder: resolved against the real parent, also when the file is named through a link
     "case/up.dict": "#include '../b.dict'\n#include '../sub/inc'\nu \"$z + 1\";\n",
     "model.xml": "<model><item id='1'>a</item><item>b</item><sub><x>1</x><x>2</x></sub></model>",
+    # an expression that binds a name (walrus) and another file whose expression mentions that bare name
+    "walrus.dict": "a 4;\nb \"(n := $a + 1) * n\";\n",
+    "usesn.dict": "x 3;\ny \"$x * n\";\nz \"$x + _ + a\";\n",
     # a document that binds the prefix the writer uses by default (xs) to another URI
     "schema.xml": "<xs:schema xmlns:xs='http://www.w3.org/2001/XMLSchema'><xs:element name='e'>t</xs:element><xs:note>n</xs:note></xs:schema>",
 }
@@ -150,6 +153,7 @@ PREFIX_OPS = [("read", ("a.dict", "abs"), {}), ("read", ("a.dict", "rel"), {"ord
               ("parse", ("b.dict", "abs"), {}), ("load", ("a.dict", "abs")), ("dump", "d1", D1), ("reset",), ("chdir", "proj/sub"), ("chdir", "elsewhere"),
               ("touch", "past"), ("touch", "future"), ("touch", "same"),
               ("write", "x1.xml", "w", DX1, "abs"), ("write", "x2.xml", "w", DX2, "rel"), ("read", ("model.xml", "abs"), {}),
+              ("read", ("walrus.dict", "abs"), {}), ("load", ("walrus.dict", "rel")),
               ("write", "x3.xml", "w", DX3, "abs"), ("write", "x4.xml", "w", DX4, "abs"), ("parse", ("schema.xml", "abs"), {"output": "xml"})]
 PROBES = [("read", ("a.dict", "abs"), {}), ("read", ("a.dict", "rel"), {"comments": False}), ("read", ("a.dict", "abs"), {"order": True}),
           ("read", ("c.json", "abs"), {}), ("write", "probe", "w", D1, "rel"), ("parse", ("a.dict", "rel"), {}), ("parse", ("a.dict", "abs"), {"order": True, "output": "json"}),
@@ -157,7 +161,7 @@ PROBES = [("read", ("a.dict", "abs"), {}), ("read", ("a.dict", "rel"), {"comment
           ("read", ("m.dict", "abs"), {}), ("read", ("m.dict", "rel"), {"comments": False}), ("parse", ("m.dict", "abs"), {}),
           ("write", "probe.xml", "w", {"000001_a": 1, "000002_a": {"000003_b": "x y"}, "c": [1, 2]}, "rel"),
           ("parse", ("model.xml", "abs"), {"output": "xml"}), ("read", ("model.xml", "rel"), {}), ("parse", ("dup2.dict", "abs"), {"output": "xml", "comments": False}),
-          ("parse", ("schema.xml", "rel"), {"output": "xml"}),
+          ("parse", ("schema.xml", "rel"), {"output": "xml"}), ("read", ("usesn.dict", "abs"), {}), ("read", ("usesn.dict", "rel"), {"order": True}),
           ("read", ("case/up.dict", "abs"), {}), ("read", ("case/up.dict", "rel"), {}),
           ("read", ("dup.dict", "abs"), {}), ("parse", ("dup.dict", "rel"), {}), ("read", ("dup2.dict", "abs"), {}), ("load", ("dup.dict", "abs"))]
 
@@ -279,6 +283,10 @@ def run(ctx: Ctx) -> None:
     rng = ctx.rng
     cases = []
     for e in getattr(ctx, "fixed_witnesses", []):
+        if isinstance(e.get("witness"), dict) and e["witness"].get("kind") == "api":
+            from props import api as _api          # a history of API calls kept from a seeded change
+            _api.process(ctx, [e["witness"]], oracles=False); ctx.corpus_cases += 1
+            continue
         cases.append(e["witness"]); ctx.corpus_cases += 1
     starts = [-1, 0, 5, LIMIT - 9, LIMIT - 5, LIMIT - 2, LIMIT - 1, LIMIT]
     cwds = ["proj", "proj/sub", "elsewhere", "."]
